@@ -34,6 +34,7 @@ let run_script cfgw ops =
   | [_name; cap; wf0; thr; probing; bound; pol; logstart; hash] ->
     let c = { c_cap = z cap; c_wf0 = (wf0 = "1"); c_wfThr = z thr; c_probing = z probing; c_bound = z bound; c_pol = z pol;
               c_logStart = z logstart; c_hash = z hash } in
+    if not (HashInstProofs.cfg_valid_b c) then print_endline "?cfg-outside-the-proved-class" else
     let s = ref init_cfg and t = ref init_cfg in
     let buf = Buffer.create 256 in
     let emit x = if Buffer.length buf > 0 then Buffer.add_char buf ' '; Buffer.add_string buf x in
